@@ -95,6 +95,29 @@ CHECKS = {
              "virtual-time harness with a sequence-automaton monitor on the implementation.",
         note=Q,
         design="7/C08"),
+    "C12": dict(
+        technique="Lean 4 proof: listener-table model (registration order, deferred removal), dispatch loop; "
+                  "first-eligible-waiter, at-most-one, exact callback set theorems by induction on the table; "
+                  "differential against the real ZBOSS listener API",
+        text="Kernel-checked for every table and command: a waiter is resolved iff an eligible one exists, then "
+             "exactly the first pending matching one-shot listener in registration order, with that command; at most "
+             "one per command; a match implies the same command type; the callbacks invoked are exactly the matching "
+             "ones, in order, once; the table keeps finished waiters until the loop step ends so further commands of "
+             "the same step go to the next waiter. Tied by driving real wait_for_responses / "
+             "register_indication_listeners / frame_received with real frames, cancellations and multi-command steps.",
+        note="callbacks do not re-enter the listener API; parameter values abstracted to their integer value",
+        design="7/C12"),
+    "C17": dict(
+        technique="Lean 4 proof: matches = same type and field-wise agreement (iff), reflexive, transitive, "
+                  "de-duplication preserves the matched set (induction over the fold); differential match/dedup ops "
+                  "over all patterns of a two-type universe",
+        text="Kernel-checked: matches is exactly field-wise wildcarding, reflexive and transitive (equal arity per "
+             "type); for every pattern list in any order with duplicates and chains, the de-duplicated listener "
+             "matches exactly the commands matched by at least one pattern; never empty. Tied by exhaustive "
+             "comparison of real matches() on all (pattern, command) pairs and of deduplicate_commands on pattern "
+             "lists, plus a fires-exactly-once check on real IndicationListener objects.",
+        note="values compared by ==; arity fixed per command type",
+        design="7/C17"),
 }
 
 NOT_YET = "check not built yet in this revision of /verif (planned, see DESIGN.md section 7)"
